@@ -26,7 +26,8 @@ RULE = (
     "case = one call history over {simulate(grid A), simulate(grid B, same length), simulate(grid C, "
     "other length), recovery_factor(), recovery_factor(density=True), recovery_factor_interpolator()} "
     "for an ideal, single-phase or two-phase (from_table fluid) reservoir in one of several configurations (table, nx, pressures, "
-    "grids); ALL sequences up to length 4 (quick) / 5 (thorough) are enumerated, plus the "
+    "grids); ALL sequences up to length 4 (quick) / 5 (thorough) are enumerated, plus histories with a "
+    "nearly-equal grid A(1+4e-6), with a one-stamp grid, the two-phase class, and the "
     "out-of-alphabet extension with simulate(grid, schedule). Non-trivial = the history contains a "
     "simulate that is followed by at least one other call (so stale state could show); distinct = "
     "descriptor hash (class, configuration, sequence)."
